@@ -200,6 +200,89 @@ def canonical_link_order(run, model, rule="R14.1"):
         raise AnalysisIncomplete("link_cores: no local bound from topo_sort")
 
 
+def _order_source(run, model, f, rel, loop_marker):
+    """callee that produces the list iterated by the loop of f that contains a call to loop_marker (whole program) /
+    the local bound from topo_sort (link)"""
+    lets = {l["pat"]["name"]: l for l in S.find(f.body, "Local") if l["pat"]["k"] == "PIdent" and l.get("init") is not None}
+    for loop in S.find(f.body, "For"):
+        if not any(True for _ in S.calls(loop["body"], loop_marker)):
+            continue
+        for v in S.idents(loop["iter"]):
+            if v in lets:
+                e = lets[v]["init"]
+                while e["k"] in ("Try", "Paren"):
+                    e = e["expr"]
+                if e["k"] == "Call":
+                    return S.callee_name(e), lets[v]
+    return None, None
+
+
+def _delegate(run, model, g):
+    """name of the function whose result g returns unchanged (tail `f(..)`, `f(..)?`-then-`Ok(v)`, `Ok(f(..)?)`), or None"""
+    stmts = g.body.get("stmts") or []
+    if not stmts:
+        return None
+    tail = stmts[-1]
+    e = tail.get("expr") if tail["k"] in ("ExprStmt", "Expr") and tail.get("expr") is not None else tail
+    lets = {l["pat"]["name"]: l["init"] for l in stmts if l["k"] == "Local" and l["pat"]["k"] == "PIdent" and l.get("init") is not None}
+    for _ in range(4):
+        if e["k"] in ("Try", "Paren"):
+            e = e["expr"]
+        elif e["k"] == "Call" and S.callee_name(e) == "Ok" and len(e["args"]) == 1:
+            e = e["args"][0]
+        elif e["k"] == "Path" and len(e["segs"]) == 1 and e["segs"][0] in lets:
+            e = lets[e["segs"][0]]
+        else:
+            break
+    if e["k"] == "Call" and S.callee_name(e) not in ("Ok", "Err", "Some"):
+        return S.callee_name(e)
+    return None
+
+
+def r14_12(run, model):
+    run.rule("R14.12", "both pipelines hand the packages to the back end in one order: the list whole-program compilation links in and the "
+                       "list link_cores concatenates in are produced by the same ordering function (two topological sorts agree on "
+                       "dependencies but not on unrelated packages, and lambda lifting is sensitive to the order of top-level functions)")
+    PIPE = "crates/compiler/src/pipeline/pipeline.rs"
+    whole = [f for f in model.fns(PIPE) if f.body is not None and any(True for _ in S.calls(f.body, "link_packages")) and any(True for _ in S.calls(f.body, "build_package"))]
+    if not whole:
+        raise AnalysisIncomplete("whole-program function calling build_package and link_packages not found")
+    srcs = {}
+    for f in whole:
+        name, l = _order_source(run, model, f, PIPE, "build_package")
+        if name is None:
+            raise AnalysisIncomplete(f"{f.name}: the list the packages are built and linked in is not bound from a call")
+        srcs[f.name] = (name, l, PIPE)
+    lc = model.fn("link_cores", SEP)
+    name, l = _order_source(run, model, lc, SEP, "extend")
+    if name is None:
+        raise AnalysisIncomplete("link_cores: the list the cores are concatenated in is not bound from a call")
+    srcs["link_cores"] = (name, l, SEP)
+
+    def kernel(name):
+        seen = [name]
+        for _ in range(3):
+            cands = [g for g in model.fns("crates/compiler/src/pipeline/packages.rs") + model.fns(SEP) if g.name == seen[-1] and g.body is not None]
+            if not cands:
+                break
+            d = _delegate(run, model, cands[0])
+            if d is None or d in seen or not any(g.name == d for g in model.fns("crates/compiler/src/pipeline/packages.rs") + model.fns(SEP)):
+                break
+            seen.append(d)
+        return seen
+    ks = {k: kernel(v[0]) for k, v in srcs.items()}
+    ref = ks["link_cores"][-1]
+    for k, (name, l, rel) in sorted(srcs.items()):
+        if k == "link_cores":
+            continue
+        ok = ks[k][-1] == ref
+        run.ob("R14.12", f"{k}|package order comes from the ordering function link uses", ok, site(rel, l["sp"]),
+               f"{k}: {' -> '.join(ks[k])}; link_cores: {' -> '.join(ks['link_cores'])}",
+               witness="packages A (imports Tr, Zed) and B (imports Tr), unrelated: whole program links Tr Zed A B, link concatenates Tr B Zed A; "
+                       "B::run then calls a closure-typed struct field as a plain function (`g(v)` on a struct) and Go rejects the linked program")
+    run.floor("whole-program linking functions examined", len(whole), 1)
+
+
 def r14_10(run, model):
     run.rule("R14.10", "a program of ordinary size survives the trip through a .core file: Core nests one level per `let`, so the function that "
                        "deserialises a CoreUnit disables serde_json's recursion limit (default 128: about 60 sequential lets)")
@@ -276,6 +359,7 @@ def run(run, model):
     run.try_rule(c13.file_identity_order, model, "R14.11")
     run.try_rule(r14_1, model)
     run.try_rule(canonical_link_order, model)
+    run.try_rule(r14_12, model)
     run.try_rule(r14_2, model)
     from rules import c16
     run.rule("R14.7", "both pipelines type-check a package against the environments of its own imports only (shared with C16 R16.5): a "
